@@ -204,10 +204,14 @@ func modPure(f *ssa.Function, depth int) bool {
 }
 
 func pureCallee(c *ssa.CallCommon) bool {
-	if _, ok := c.Value.(*ssa.Builtin); ok {
+	if f := c.StaticCallee(); f != nil && isModFunc(f) && modPureMemo[f] != 3 && modPure(f, 0) {
 		return true
 	}
-	if f := c.StaticCallee(); f != nil && isModFunc(f) && modPureMemo[f] != 3 && modPure(f, 0) {
+	return pureCalleeBasic(c)
+}
+
+func pureCalleeBasic(c *ssa.CallCommon) bool {
+	if _, ok := c.Value.(*ssa.Builtin); ok {
 		return true
 	}
 	n := calleeName(c)
@@ -244,6 +248,73 @@ func addrKey(v ssa.Value, d int) string {
 		}
 	}
 	return fmt.Sprintf("v:%p", v)
+}
+
+// writesOf: the struct field names a module function may store to (transitively); "*" = anything.
+var writesMemo = map[*ssa.Function]map[string]bool{}
+
+func writesOf(f *ssa.Function, depth int) map[string]bool {
+	if w, ok := writesMemo[f]; ok {
+		return w
+	}
+	w := map[string]bool{}
+	writesMemo[f] = w // recursion guard: partial result
+	if f == nil || len(f.Blocks) == 0 || depth > 6 {
+		w["*"] = true
+		return w
+	}
+	for _, g := range withClosures(f) {
+		allInstrs(g, func(in ssa.Instruction) {
+			switch t := in.(type) {
+			case *ssa.Store:
+				switch a := t.Addr.(type) {
+				case *ssa.FieldAddr:
+					if _, local := rootOf(a).(*ssa.Alloc); !local {
+						w[fieldName(a.X.Type(), a.Field)] = true
+					}
+				case *ssa.Alloc:
+				case *ssa.IndexAddr:
+					w["[]"] = true
+				default:
+					if _, isG := t.Addr.(*ssa.Global); isG {
+						w["global"] = true
+					} else {
+						w["*"] = true
+					}
+				}
+			case *ssa.Call, *ssa.Go, *ssa.Defer:
+				c := callOf(in)
+				if pureCalleeBasic(c) {
+					return
+				}
+				if c.IsInvoke() {
+					w["*"] = true
+					return
+				}
+				callee := calleeFunc(c)
+				if callee == nil {
+					w["*"] = true
+					return
+				}
+				if isModFunc(callee) {
+					for k := range writesOf(callee, depth+1) {
+						w[k] = true
+					}
+					return
+				}
+				// external: harmless unless it is handed a pointer into module data
+				for _, a := range c.Args {
+					switch a.Type().Underlying().(type) {
+					case *types.Pointer, *types.Interface, *types.Map, *types.Slice, *types.Signature:
+						if _, isConst := a.(*ssa.Const); !isConst {
+							w["*"] = true
+						}
+					}
+				}
+			}
+		})
+	}
+	return w
 }
 
 // mayWrite: instruction may modify memory that a field/alloc load reads.
@@ -408,6 +479,14 @@ func (p *prover) cleanBetween(a, b ssa.Instruction, key string) bool {
 		}
 		if !mayWrite(in) {
 			return true
+		}
+		if c, ok := in.(*ssa.Call); ok && field != "" {
+			if callee := c.Call.StaticCallee(); callee != nil && isModFunc(callee) {
+				w := writesOf(callee, 0)
+				if !w["*"] && !w[field] {
+					return true
+				}
+			}
 		}
 		if st, ok := in.(*ssa.Store); ok {
 			ks := addrKey(st.Addr, 0)
@@ -595,6 +674,10 @@ func (p *prover) lenOf(x ssa.Value) linExpr {
 		switch calleeName(&t.Call) {
 		case "(*bytes.Buffer).Bytes", "(*bytes.Buffer).String":
 			return p.bufLen(t.Call.Args[0], t)
+		case "builtin.append":
+			if len(t.Call.Args) == 2 {
+				return p.lenOf(t.Call.Args[0]).add(p.lenOf(t.Call.Args[1]), 1)
+			}
 		case "strings.ToLower", "strings.ToUpper":
 			// ASCII-only equality is not guaranteed; keep as its own atom
 		case "strings.TrimSpace", "strings.TrimPrefix", "strings.TrimSuffix", "strings.TrimRight", "strings.TrimLeft", "strings.Trim":
@@ -698,6 +781,23 @@ func (p *prover) lenFacts(key string, x ssa.Value) {
 			if n == "strings.SplitN" {
 				if c, ok := constInt(t.Call.Args[2]); ok && c > 0 {
 					p.ge(newLin(c), e)
+				}
+			}
+			// len(strings.Split(s, sep)) == strings.Count(s, sep) + 1 for a non-empty sep
+			if n == "strings.Split" {
+				if sep, ok := constString(t.Call.Args[1]); ok && sep != "" {
+					allInstrs(p.fn, func(in ssa.Instruction) {
+						cc, ok := in.(*ssa.Call)
+						if !ok || calleeName(&cc.Call) != "strings.Count" {
+							return
+						}
+						s2, ok2 := constString(cc.Call.Args[1])
+						if ok2 && s2 == sep && p.canon(cc.Call.Args[0]) == p.canon(t.Call.Args[0]) {
+							cnt := p.lin(cc)
+							p.ge(e, cnt.add(newLin(1), 1))
+							p.ge(cnt.add(newLin(1), 1), e)
+						}
+					})
 				}
 			}
 		}
@@ -910,6 +1010,13 @@ func (p *prover) atomFacts(key string, v ssa.Value) {
 			n := calleeName(&c.Call)
 			if t.Index == 0 && (strings.HasSuffix(n, ".Read") || strings.HasSuffix(n, ".Write") || n == "io.ReadFull" || n == "copy") {
 				p.fact(e)
+			}
+		}
+		// for i, ch := range s (string): 0 <= i < len(s) whenever the iteration yielded a value
+		if nx, ok := t.Tuple.(*ssa.Next); ok && nx.IsString && t.Index == 1 {
+			if rg, ok := nx.Iter.(*ssa.Range); ok {
+				p.fact(e)
+				p.ge(p.lenOf(rg.X).add(newLin(1), -1), e)
 			}
 		}
 	case *ssa.Call:
